@@ -458,6 +458,8 @@ static void usage() {
                     "              [--one INDEX] [--replay FILE] [--list]\n");
 }
 
+namespace sim { int seams_selftest(); }
+
 int main(int argc, char** argv) {
     std::string prop, tier = "quick", replay;
     uint64_t runs = 0, seed = 0; int jobs = 16; int64_t one = -1, warm = -1; bool list = false; bool verbose = false;
@@ -478,6 +480,7 @@ int main(int argc, char** argv) {
         else if (a == "--replay") replay = next();
         else if (a == "--warm") warm = strtoll(next(), nullptr, 10);
         else if (a == "--list") list = true;
+        else if (a == "--selftest") return sim::seams_selftest();
         else if (a == "-v") verbose = true;
         else { usage(); return 2; }
     }
